@@ -7,7 +7,8 @@ import (
 
 var c03Chain = []string{".tail()", ".skip(1)", ".skip(0)", ".take(0)", ".take(1)", ".take(5)", ".first()", ".last()", ".where(true)", ".where(false)",
 	".select($this)", ".distinct()", ".exclude(%W)", ".intersect(%W)", ".combine(%W)", ".union(%W)", ".ofType(string)", ".ofType(HumanName)",
-	".children()", ".descendants()", ".repeat($this)", ".single()", ".idf()", ".trace('x')", "[0]", "[1]", ".y()", ".skip(2)", ".tail().tail()"}
+	".where($this is String)", ".where(($this is String).not())", ".where($this is Integer)", ".where($this is HumanName)", ".where($this is Boolean)",
+	".select($this).where($this is Integer)", ".exclude(%W.first())", ".children()", ".descendants()", ".repeat($this)", ".single()", ".idf()", ".trace('x')", "[0]", "[1]", ".y()", ".skip(2)", ".tail().tail()"}
 
 var c03Tail = []string{" & 'x'", " & %W", "", "", ".count()", " = %W", ".supersetOf(%W)", ".subsetOf(%W)", ".toString()", ".exists()", ".empty()", ".combine(%W).count()", ".isDistinct()", ".allTrue()", ".select($this & 'z')", ".where($this = %W)"}
 
@@ -29,9 +30,16 @@ func (g *genCtx) varProgram() (ProgSpec, []string) {
 		src += fill(pick(g.r, c03Chain))
 	}
 	t := fill(pick(g.r, c03Tail))
-	if g.r.p(0.2) {
+	switch x := g.r.n(10); {
+	case x < 2:
 		src = "'x' & " + src
-	} else {
+	case x < 5:
+		// the variable (or a slice of it) as the projection / criterion / branch inside an iteration
+		// over several items: functions that collect per-item results must not adopt such a slice
+		over := pick(g.r, []string{"children()", "descendants().take(3)", "children().take(2)", "descendants().skip(1).take(4)", "(1 | 2)"[:0] + "children().children()"})
+		form := pick(g.r, []string{"%s.select(%s)", "%s.select(%s).count()", "%s.select(iif(true, %s))", "%s.where(%s.exists())", "%s.all(%s.empty().not())", "%s.select(%s & 'q')", "%s.exists(%s.count() > 0)", "%s.select(%s.take(1))", "%s.select(%s.first())", "%s.select(%s.tail())"})
+		src = fmt.Sprintf(form, over, src)
+	default:
 		src += t
 	}
 	var opts []COpt
